@@ -3,11 +3,13 @@
 Python side (work package "ref"): the continuation grammar (lib/scheme_gen.py G05), the
 reference interpreter with full re-entrant continuations as the specification oracle
 (lib/scheme_ref.py).  The theorems are in coq/Props/C05.v (integrator)."""
+import os
 import common as C
 import scheme_ref as R
 import scheme_gen as G
 import scheme_oracle as O
 
+os.environ.setdefault("MW_IMPL_CASE_BUDGET", "0.25")   # sessions are programs: bound a hanging implementation
 PID = "C05"
 ALLOWED_AXIOMS = ["Classical_Prop.classic", "ClassicalDedekindReals.sig_forall_dec",
                   "ClassicalDedekindReals.sig_not_dec", "FunctionalExtensionality.functional_extensionality_dep"]
